@@ -7,7 +7,7 @@ import re
 
 from ..cfg import cfg_of
 from ..model import AnalysisError, call_name, calls_in, dotted, norm, walk_no_nested
-from .. import callgraph, inline, rules
+from .. import callgraph, inline, normal, rules
 from .. import conds as cnd
 from ._dispatch import check_dispatcher
 
@@ -95,7 +95,7 @@ def spin_loops(func):
     """[(While node, flag dotted, continue_while_value)] for `while self.F:` / `while not self.F:` loops whose body only
     sleeps/passes."""
     out = []
-    for st in rules.func_stmts(func.node):
+    for st in rules.func_stmts(func.node if hasattr(func, "node") else func):
         if not isinstance(st, ast.While):
             continue
         body_ok = all(isinstance(b, ast.Pass) or (isinstance(b, ast.Expr) and isinstance(b.value, ast.Call) and (call_name(b.value) or "").endswith("sleep")) for b in st.body)
@@ -155,8 +155,17 @@ def check_spin_handshakes(ctx):
     for cname in ("TcpConnection", "TcpServerConnection", "TcpClientConnection", "SerialConnection"):
         cls = repo.cls(cname)
         targets = thread_targets(repo, cls)
+        # a wait loop moved into a private helper is still the wait of the method that calls the helper
+        forms, inlined = {}, set()
         for mname, meth in cls.methods.items():
-            for loop, flag, cont_val in spin_loops(meth):
+            node, used = normal.normalise(repo, meth, aliases=False, comps=False, ifexp=False)
+            forms[mname] = node
+            inlined |= {h.name for h in used}
+        for mname, meth in cls.methods.items():
+            if mname in inlined:
+                continue
+            mnode = forms[mname]
+            for loop, flag, cont_val in spin_loops(mnode):
                 n_loops += 1
                 ctx.touch(meth)
                 exit_val = not cont_val
@@ -195,7 +204,7 @@ def check_spin_handshakes(ctx):
                            f"`{risky[0].text()}` in {T.qualname} is outside a try: if it raises the thread ends without resetting {flag}", key=key + " contained " + T.name, where=meth.where)
                 # waiter side: early returns before the spin must test the same flag
                 if exit_val is False:
-                    mcfg = cfg_of(meth.node)
+                    mcfg = cfg_of(mnode)
                     loop_node = next(n for n in mcfg.nodes if n.kind == "test" and n.ast is loop.test)
                     for r in [n for n in mcfg.real_nodes() if isinstance(n.ast, ast.Return) and not mcfg.path_exists(loop_node, n)]:
                         conds = mcfg.dominating_conditions(r)
@@ -228,7 +237,8 @@ def check_close_sequence(ctx):
         f = repo.method(cname, mname, inherited=False)
         ctx.touch(f)
         q = f.qualname
-        cfg = cfg_of(f.node)
+        fnode = inline.expanded(ctx, f, keep={"__receiver_thread_read_data", "_receiver_loop"})  # notifications moved into private helpers
+        cfg = cfg_of(fnode)
 
         def node_calling(name):
             return [n for n in cfg.real_nodes() if any(c == name for c in n.call_names())]
@@ -239,7 +249,7 @@ def check_close_sequence(ctx):
         ctx.ob("C09.P2", q, order, "order is on_disconnecting -> close -> on_disconnected" if order else "the close sequence is not on_disconnecting -> close -> on_disconnected", key="order", where=f.where)
         for label, n in (("on_disconnecting", d1[0]), ("on_disconnected", d2[0])):
             c = next(c for c in n.calls if call_name(c) == f"self.{label}")
-            ok = callgraph.broadly_guarded(f.node, c)
+            ok = callgraph.broadly_guarded(fnode, c)
             ctx.ob("C09.P2", q, ok, f"a raising {label} listener is contained" if ok else f"a raising {label} listener skips the rest of the close sequence (socket not closed / flags not reset)", key="contained " + label, where=f.where)
         # every step happens on every path (post-dominates entry, exceptional edges of contained listeners included)
         for label, nodes in (("on_disconnecting", d1), ("close", cl), ("on_disconnected", d2)):
@@ -249,7 +259,7 @@ def check_close_sequence(ctx):
         loops = [n for n in cfg.real_nodes() if any("read_data" in c or "_receiver_loop" in c for c in n.call_names())]
         ctx.require(len(loops) == 1, f"{q}: read loop call not found")
         lc = next(c for c in loops[0].calls if "read_data" in (call_name(c) or "") or "_receiver_loop" in (call_name(c) or ""))
-        ok = callgraph.broadly_guarded(f.node, lc)
+        ok = callgraph.broadly_guarded(fnode, lc)
         ctx.ob("C09.P2", q, ok, "an exception in the read loop still runs the close sequence" if ok else "an exception in the read loop escapes: no disconnect handling, flags never reset", key="read-loop-contained", where=f.where)
         ok = cfg.path_exists(loops[0], d1[0]) and not cfg.path_exists(d1[0], loops[0])
         ctx.ob("C09.P2", q, ok, "the close sequence follows the read loop" if ok else "the close sequence does not follow the read loop", key="after-loop", where=f.where)
@@ -373,17 +383,29 @@ def check_link_taken_into_service(ctx):
         "on_connected is fired": _nodes_calling(cfg, lambda x: x == "self.on_connected"),
     }
     handlers = [n for n in cfg.nodes if n.kind == "handler"]
+    # where the result is decided: a `return <literal>` or, for `return name`, every assignment of a literal to that name
+    sites = []
     for r in rets:
-        known, val = rules.literal(c.node, r.ast.value) if r.ast.value is not None else (True, None)
+        v = r.ast.value
+        if isinstance(v, ast.Name):
+            defs = [n for n in cfg.real_nodes() if isinstance(n.ast, ast.Assign) and any(isinstance(t, ast.Name) and t.id == v.id for t in n.ast.targets)]
+            ctx.require(bool(defs) and all(isinstance(n.ast.value, ast.Constant) for n in defs), f"{q}: the returned `{v.id}` is not assigned from literals only - unknown result idiom")
+            sites.extend((n, n.ast.value) for n in defs)
+        else:
+            sites.append((r, v))
+    for r, value in sites:
+        known, val = rules.literal(c.node, value) if value is not None else (True, None)
         failed = any(cfg.dominates(h, r) for h in handlers if cfg.path_exists(conn[0], h) and not any(cfg.dominates(s, h) for s in steps["the receiver is started"]))
         if failed:
             ok = known and not val
-            ctx.ob("C09.P4", q, ok, "a failed connect is reported as failure" if ok else f"the failed-connect path returns `{norm(r.ast.value)}`: the connect loop stops retrying although no link exists", key="failure-value", where=c.where)
+            ctx.ob("C09.P4", q, ok, "a failed connect is reported as failure" if ok else f"the failed-connect path returns `{norm(value)}`: the connect loop stops retrying although no link exists", key="failure-value", where=c.where)
         else:
             ok = known and val is True
-            ctx.ob("C09.P4", q, ok, "an established link is reported as success" if ok else f"the established-link path returns `{norm(r.ast.value) if r.ast.value is not None else None}`: the connect loop opens a second socket over a live link", key="success-value", where=c.where)
+            ctx.ob("C09.P4", q, ok, "an established link is reported as success" if ok else f"the established-link path returns `{norm(value) if value is not None else None}`: the connect loop opens a second socket over a live link", key="success-value", where=c.where)
+            # the result may be decided first and the link taken into service right after (try/except/else + single return):
+            # what matters is that no path from the decision to the function's end skips a step
             for label, nodes in steps.items():
-                ok = bool(nodes) and any(cfg.dominates(n, r) for n in nodes)
+                ok = bool(nodes) and (any(cfg.dominates(n, r) for n in nodes) or not cfg.path_exists(r, cfg.exit, avoid=nodes, no_exc=True))
                 ctx.ob("C09.P4", q, ok, f"before success is reported {label}" if ok else f"success is reported although not ({label}): the link exists but is not in service (nothing is received / nobody is told)", key="success " + label, where=c.where)
     # ---- active side: the connect thread ends only connected or stopped
     t = repo.method("TcpClientConnection", "__connect_thread", inherited=False)
@@ -404,7 +426,8 @@ def check_link_taken_into_service(ctx):
     sfn = repo.method("TcpServerConnection", "__server_thread", inherited=False)
     ctx.touch(sfn)
     q = sfn.qualname
-    cfg = cfg_of(sfn.node)
+    snode = inline.expanded(ctx, sfn, keep={"_start_receiver"})
+    cfg = cfg_of(snode)
     acc = [n for n in cfg.real_nodes() if isinstance(n.ast, ast.Assign) and any("self._sock" in norm(x) for x in ast.walk(n.ast.targets[0]) if isinstance(x, ast.Attribute))]
     ctx.require(len(acc) == 1, f"{q}: the statement that stores the accepted socket was not found")
     accept_calls = _nodes_calling(cfg, lambda x: x.endswith("_server_sock.accept"))
@@ -419,7 +442,7 @@ def check_link_taken_into_service(ctx):
     after = [n for n in cfg.real_nodes() if isinstance(n.ast, ast.Return) and cfg.dominates(acc[0], n)]
     ctx.require(bool(after), f"{q}: no return after the accepted socket was stored")
     steps = {
-        "the socket is made non-blocking": [n for n in cfg.real_nodes() if any(rules.literal(sfn.node, k.args[0]) in ((True, 0), (True, False)) for k in n.calls if (call_name(k) or "").endswith("_socket.setblocking") and k.args)],
+        "the socket is made non-blocking": [n for n in cfg.real_nodes() if any(rules.literal(snode, k.args[0]) in ((True, 0), (True, False)) for k in n.calls if (call_name(k) or "").endswith("_socket.setblocking") and k.args)],
         "the connected flag is raised": [n for n in cfg.real_nodes() if isinstance(n.ast, ast.Assign) and any(dotted(x) == "self._connected" for x in n.ast.targets) and isinstance(n.ast.value, ast.Constant) and n.ast.value.value is True],
         "the receiver is started": _nodes_calling(cfg, lambda x: x == "self._start_receiver"),
         "on_connected is fired": _nodes_calling(cfg, lambda x: x == "self.on_connected"),
@@ -600,16 +623,17 @@ def check_idle_and_disable(ctx):
         d = repo.method(cname, "disable", inherited=False)
         ctx.touch(d)
         q = d.qualname
-        cfg = cfg_of(d.node)
+        dn = inline.expanded(ctx, d, keep={"disconnect"})
+        cfg = cfg_of(dn)
         lowers = [n for n in cfg.real_nodes() if isinstance(n.ast, ast.Assign) and any(dotted(t) == enabled for t in n.ast.targets)]
-        ok = len(lowers) == 1 and rules.literal(d.node, lowers[0].ast.value) == (True, False) and cnd.facts(cfg, lowers[0]) == {(enabled, True)}
+        ok = len(lowers) == 1 and rules.literal(dn, lowers[0].ast.value) == (True, False) and cnd.facts(cfg, lowers[0]) == {(enabled, True)}
         ctx.ob("C09.W2", q, ok, "disable() of an enabled connection lowers the enabled flag" if ok else
                "disable() does not lower the enabled flag exactly when it was raised: the link is re-armed after the close (or an enabled connection is never disabled)", key="lowers-enabled", where=d.where)
         disc = _nodes_calling(cfg, lambda x: x == "self.disconnect")
         ok = bool(disc) and bool(lowers) and not cfg.path_exists(lowers[0], cfg.exit, avoid=disc, no_exc=True)
         ctx.ob("C09.W2", q, ok, "disable() always closes the open link" if ok else "there is a path through disable() of an enabled connection that does not call disconnect(): the link stays up, NOT CONNECTED is never reported", key="disconnects", where=d.where)
         raises = [n for n in cfg.real_nodes() if isinstance(n.ast, ast.Assign) and any(dotted(t) == stop_flag for t in n.ast.targets)]
-        ok = len(raises) == 1 and rules.literal(d.node, raises[0].ast.value) == (True, True) and (f"{thread}.is_alive()", True) in cnd.facts(cfg, raises[0])
+        ok = len(raises) == 1 and rules.literal(dn, raises[0].ast.value) == (True, True) and (f"{thread}.is_alive()", True) in cnd.facts(cfg, raises[0])
         ctx.ob("C09.W2", q, ok, "the stop flag is raised exactly for a live thread" if ok else
                f"{stop_flag} is not raised (to True) under `{thread}.is_alive()`: without a live thread nobody lowers it again and disable() spins for ever; with one that is not told to stop, connecting goes on after disable()", key="raises-stop-for-live-thread", where=d.where)
 
@@ -626,7 +650,7 @@ def check_socket_lifecycle(ctx):
     ctx.ob("C09.P4", c.qualname, ok, "every attempt creates a fresh socket before anything is done with it" if ok else
            "the socket is used before this attempt created it: the first attempt fails with 'not connected', later ones configure the closed socket of the previous link", key="fresh-socket", where=c.where)
     sfn = repo.method("TcpServerConnection", "__server_thread", inherited=False)
-    cfg = cfg_of(sfn.node)
+    cfg = cfg_of(inline.expanded(ctx, sfn, keep={"_start_receiver"}))
     made = [n for n in cfg.real_nodes() if isinstance(n.ast, ast.Assign) and any(dotted(t) == "self._server_sock" for t in n.ast.targets) and isinstance(n.ast.value, ast.Call) and call_name(n.ast.value) == "socket.socket"]
     bind = _nodes_calling(cfg, lambda x: x == "self._server_sock.bind")
     listen = _nodes_calling(cfg, lambda x: x == "self._server_sock.listen")
